@@ -332,6 +332,15 @@ def check_vector(case, ctx):
         if not np.array_equal(np.asarray(pred[i]), exp):
             raise Violation("Vector component %d (%s) differs from the same estimator fitted alone on data[%d] with weights[%d]: %r vs %r"
                             % (i, spec["kind"], i, i, np.asarray(pred[i]).tolist()[:4], exp.tolist()[:4]))
+    # one weights array per component: a shorter tuple leaves a component without its weights (and, with zip, without a fit) and has to be refused
+    if weights is not None:
+        vec3 = build.make_estimator(dict(kind="vector", components=case["components"]))
+        try:
+            quiet(vec3.fit, (e, n), data, weights[:-1])
+        except Exception:  # noqa: BLE001 - refused, as it must be
+            pass
+        else:
+            raise Violation("Vector.fit accepted %d weights arrays for %d data components" % (len(weights) - 1, len(data)))
     # filter: same coordinates and weights, residual = data - prediction in the data's shape
     vec2 = build.make_estimator(dict(kind="vector", components=case["components"]))
     out = quiet(vec2.filter, (e, n), data, weights)
